@@ -118,9 +118,12 @@ def extended_mps_factors(
     """
     Given a valid list of MPS factors, accounting for qubits marked as `True` in `where`,
     fills the `False` positions with new qubits in the |0> state.
+    The new factors have the physical dimension of the given ones
+    (2, or 3 with a leakage level).
     """
     assert len(mps_factors) == sum(1 for b in where if b)
 
+    dim = mps_factors[0].shape[1] if len(mps_factors) > 0 else 2
     bond_dimension = 1
     factor_index = 0
     result = []
@@ -133,7 +136,7 @@ def extended_mps_factors(
             factor_index += 1
         elif factor_index == len(mps_factors):
             factor = torch.zeros(
-                bond_dimension, 2, 1, dtype=torch.complex128
+                bond_dimension, dim, 1, dtype=torch.complex128
             )  # FIXME: assign device
             factor[:, 0, :] = torch.eye(bond_dimension, 1)
             bond_dimension = 1
@@ -141,7 +144,7 @@ def extended_mps_factors(
         else:
             factor = torch.zeros(
                 bond_dimension,
-                2,
+                dim,
                 bond_dimension,
                 dtype=torch.complex128,  # FIXME: assign device
             )
@@ -156,9 +159,12 @@ def extended_mpo_factors(
     """
     Given a valid list of MPO factors, accounting for qubits marked as `True` in `where`,
     fills the `False` positions with new MPO identity factors.
+    The new factors have the physical dimension of the given ones
+    (2, or 3 with a leakage level).
     """
     assert len(mpo_factors) == sum(1 for b in where if b)
 
+    dim = mpo_factors[0].shape[1] if len(mpo_factors) > 0 else 2
     bond_dimension = 1
     factor_index = 0
     result = []
@@ -170,17 +176,17 @@ def extended_mpo_factors(
             bond_dimension = mpo_factors[factor_index].shape[3]
             factor_index += 1
         elif factor_index == len(mpo_factors):
-            factor = torch.zeros(bond_dimension, 2, 2, 1, dtype=torch.complex128)
-            factor[:, 0, 0, :] = torch.eye(bond_dimension, 1)
-            factor[:, 1, 1, :] = torch.eye(bond_dimension, 1)
+            factor = torch.zeros(bond_dimension, dim, dim, 1, dtype=torch.complex128)
+            for level in range(dim):
+                factor[:, level, level, :] = torch.eye(bond_dimension, 1)
             bond_dimension = 1
             result.append(factor)
         else:
             factor = torch.zeros(
-                bond_dimension, 2, 2, bond_dimension, dtype=torch.complex128
+                bond_dimension, dim, dim, bond_dimension, dtype=torch.complex128
             )
-            factor[:, 0, 0, :] = torch.eye(bond_dimension, bond_dimension)
-            factor[:, 1, 1, :] = torch.eye(bond_dimension, bond_dimension)
+            for level in range(dim):
+                factor[:, level, level, :] = torch.eye(bond_dimension, bond_dimension)
             result.append(factor)
     return result
 
